@@ -707,4 +707,213 @@ theorem cleanup_window_keeps_fresh (st : St) (mid : List MidOp) (h : Inv st) :
   exact cleanRemove_window st1 (expiredKeys st)
     (foldl_midStep_preserves Rv.Lemmas.StoreInv.midStep_preserves mid st h)
 
+/-! ### the eviction loop over a STALE candidate list (scan, window, removal loop)
+
+  `cacheJanitor.evict` collects and sorts its candidates first; the removal loop
+  runs afterwards and reads the live size before every candidate.  Everything
+  below holds for ANY candidate list `cs` and ANY state `st1` the loop starts
+  from; the `evict_window_*` theorems instantiate `cs` with the candidates
+  scanned in `st` and `st1` with `mid.foldl midStep st`. -/
+
+theorem evictLoop_nil_eq (tgt : Int) (skip : Nat → Bool) (cs : List Entry) (st : St) :
+    evictLoop tgt skip cs st [] = loop tgt skip cs st := by
+  rw [evictLoop_eq]
+  simp
+
+/-- at or below the target the loop does nothing, whoever brought the size there. -/
+theorem loop_noop_at_target (tgt : Int) (skip : Nat → Bool) (cs : List Entry) (st : St)
+    (h : st.byteSize ≤ tgt) : loop tgt skip cs st = (st, []) := by
+  cases cs with
+  | nil => rfl
+  | cons c cs => simp only [loop, if_pos h]
+
+/-- the state in which the loop decides about the removal that follows the
+    removals `ks`: the removals so far applied in order (skipped candidates do
+    not change the state). -/
+def afterRemovals (st : St) (ks : List Nat) : St := ks.foldl (fun s k => (removeEntry s k).1) st
+
+theorem afterRemovals_cons (st : St) (k : Nat) (ks : List Nat) :
+    afterRemovals st (k :: ks) = afterRemovals (removeEntry st k).1 ks := rfl
+
+/-- EVERY removal (not only the last one) is decided on a size still above the
+    target: if `k` is removed after exactly the removals `ks`, the live size in
+    that state exceeded the target.  No invariant is needed. -/
+theorem loop_each_removal_above (tgt : Int) (skip : Nat → Bool) (cs : List Entry) (st : St)
+    (ks : List Nat) (k : Nat) (rest : List Nat) (hk : (loop tgt skip cs st).2 = ks ++ k :: rest) :
+    (afterRemovals st ks).byteSize > tgt := by
+  induction cs generalizing st ks with
+  | nil =>
+    simp only [loop] at hk
+    cases ks <;> cases hk
+  | cons c cs ih =>
+    simp only [loop] at hk
+    by_cases h1 : st.byteSize ≤ tgt
+    · simp only [if_pos h1] at hk
+      cases ks <;> cases hk
+    · simp only [if_neg h1] at hk
+      by_cases h2 : skip c.key = true
+      · simp only [if_pos h2] at hk
+        exact ih st ks hk
+      · simp only [if_neg h2] at hk
+        cases ks with
+        | nil => exact Int.not_le.1 h1
+        | cons k0 ks' =>
+          simp only [List.cons_append, List.cons.injEq] at hk
+          rw [afterRemovals_cons, hk.1.symm]
+          exact ih _ ks' hk.2
+
+theorem afterRemovals_entries (st : St) (ks : List Nat) :
+    (afterRemovals st ks).entries = st.entries.filter (fun e => !ks.contains e.key) := by
+  induction ks generalizing st with
+  | nil => simp [afterRemovals, filter_true']
+  | cons k ks ih =>
+    rw [afterRemovals_cons, ih, removeEntry_entries, erase, List.filter_filter]
+    apply List.filter_congr
+    intro e _
+    by_cases hk : e.key = k <;> simp [hk]
+
+theorem afterRemovals_preserves {st : St} (h : Inv st) (ks : List Nat) : Inv (afterRemovals st ks) := by
+  induction ks generalizing st with
+  | nil => exact h
+  | cons k ks ih => exact ih (removeEntry_preserves h k)
+
+/-- on a consistent state the size after the removals `ks` is the size before
+    minus the sizes of the LIVE entries under those keys (a key that is no longer
+    stored frees nothing, a key stored anew frees its new size). -/
+theorem afterRemovals_byteSize {st : St} (h : Inv st) (ks : List Nat) :
+    (afterRemovals st ks).byteSize = st.byteSize - freed st.entries ks := by
+  rw [(afterRemovals_preserves h ks).bytes, afterRemovals_entries, h.bytes]
+  have hs := totalSize_filter_split (fun e => ks.contains e.key) st.entries
+  unfold freed
+  omega
+
+theorem loop_removed_subset (tgt : Int) (skip : Nat → Bool) (cs : List Entry) (st : St) :
+    ∀ k ∈ (loop tgt skip cs st).2, ∃ c ∈ cs, c.key = k ∧ skip c.key = false := by
+  intro k hk
+  rcases loop_prefix tgt skip cs st with ⟨n, hn⟩
+  rw [hn] at hk
+  rcases List.mem_map.1 hk with ⟨c, hc, rfl⟩
+  have hc' := List.mem_filter.1 (List.mem_of_mem_take hc)
+  refine ⟨c, hc'.1, rfl, ?_⟩
+  cases hs : skip c.key with
+  | false => rfl
+  | true => rw [hs] at hc'; exact absurd hc'.2 (by decide)
+
+theorem mem_sortDesc_keys {now : Int} {es : List Entry} {k : Nat} :
+    k ∈ (sortDesc now es).map (·.key) ↔ ∃ e ∈ es, e.key = k := by
+  rw [List.mem_map]
+  constructor
+  · rintro ⟨e, he, hk⟩
+    exact ⟨e, (candidates_sorted now es).2.mem_iff.1 he, hk⟩
+  · rintro ⟨e, he, hk⟩
+    exact ⟨e, (candidates_sorted now es).2.mem_iff.2 he, hk⟩
+
+/-! ### `evict` with a window between the scan and the removal loop -/
+
+/-- (W1) the size is at or below the target when the removal loop starts (for
+    instance because another client deleted entries in the window): nothing is
+    removed. -/
+theorem evict_window_noop_at_target (st : St) (mid : List MidOp) (limit : Int) (skip : Nat → Bool)
+    (_h : Inv st) (hle : (mid.foldl midStep st).byteSize ≤ target limit) :
+    evictLoop (target limit) skip (sortDesc st.now st.entries) (mid.foldl midStep st) [] =
+      (mid.foldl midStep st, []) := by
+  rw [evictLoop_nil_eq]
+  exact loop_noop_at_target _ _ _ _ hle
+
+/-- (W2) the loop ends at or below the target, or it has tried every scanned
+    entry whose lock it can take, and none of these keys is stored any more. -/
+theorem evict_window_stops_or_exhausts (st : St) (mid : List MidOp) (limit : Int) (skip : Nat → Bool)
+    (_h : Inv st) :
+    let r := evictLoop (target limit) skip (sortDesc st.now st.entries) (mid.foldl midStep st) []
+    r.1.byteSize ≤ target limit ∨
+    ∀ c ∈ sortDesc st.now st.entries, skip c.key = false → c.key ∈ r.2 ∧ lookup r.1.entries c.key = none := by
+  intro r
+  have hr : r = loop (target limit) skip (sortDesc st.now st.entries) (mid.foldl midStep st) :=
+    evictLoop_nil_eq _ _ _ _
+  rw [hr]
+  rcases loop_reaches (target limit) skip (sortDesc st.now st.entries) (mid.foldl midStep st) with hl | hl
+  · exact Or.inl hl
+  · refine Or.inr ?_
+    intro c hc hs
+    refine ⟨hl c hc hs, ?_⟩
+    rw [lookup_none_iff, loop_entries]
+    intro e he hk
+    have := (List.mem_filter.1 he).2
+    rw [hk] at this
+    have hm : (loop (target limit) skip (sortDesc st.now st.entries) (mid.foldl midStep st)).2.contains c.key = true :=
+      List.contains_iff_mem.2 (hl c hc hs)
+    rw [hm] at this
+    exact absurd this (by decide)
+
+/-- (W3) no removal once the target is reached: whenever `k` is removed after
+    the removals `ks`, the live size in that very state was above the target. -/
+theorem evict_window_minimal (st : St) (mid : List MidOp) (limit : Int) (skip : Nat → Bool)
+    (_h : Inv st) (ks : List Nat) (k : Nat) (rest : List Nat)
+    (hk : (evictLoop (target limit) skip (sortDesc st.now st.entries) (mid.foldl midStep st) []).2 =
+      ks ++ k :: rest) :
+    (afterRemovals (mid.foldl midStep st) ks).byteSize > target limit := by
+  rw [evictLoop_nil_eq] at hk
+  exact loop_each_removal_above _ _ _ _ ks k rest hk
+
+/-- (W3, in the form of `evict_minimal`) the size at the start of the removal
+    loop minus what the earlier removals freed there was above the target. -/
+theorem evict_window_minimal_freed (st : St) (mid : List MidOp) (limit : Int) (skip : Nat → Bool)
+    (h : Inv st) (ks : List Nat) (k : Nat) (rest : List Nat)
+    (hk : (evictLoop (target limit) skip (sortDesc st.now st.entries) (mid.foldl midStep st) []).2 =
+      ks ++ k :: rest) :
+    (mid.foldl midStep st).byteSize - freed (mid.foldl midStep st).entries ks > target limit := by
+  have h1 : Inv (mid.foldl midStep st) :=
+    foldl_midStep_preserves Rv.Lemmas.StoreInv.midStep_preserves mid st h
+  rw [← afterRemovals_byteSize h1 ks]
+  exact evict_window_minimal st mid limit skip h ks k rest hk
+
+/-- (W4) only scanned keys whose lock can be taken are ever removed … -/
+theorem evict_window_only_scanned (st : St) (mid : List MidOp) (limit : Int) (skip : Nat → Bool)
+    (_h : Inv st) :
+    ∀ k ∈ (evictLoop (target limit) skip (sortDesc st.now st.entries) (mid.foldl midStep st) []).2,
+      k ∈ (sortDesc st.now st.entries).map (·.key) ∧ skip k = false := by
+  intro k hk
+  rw [evictLoop_nil_eq] at hk
+  rcases loop_removed_subset _ _ _ _ k hk with ⟨c, hc, rfl, hs⟩
+  exact ⟨List.mem_map.2 ⟨c, hc, rfl⟩, hs⟩
+
+/-- … so whatever is stored when the loop starts under a key that was not stored
+    at the scan (written in the window), or under a key whose lock is held,
+    survives. -/
+theorem evict_window_keeps_unscanned (st : St) (mid : List MidOp) (limit : Int) (skip : Nat → Bool)
+    (h : Inv st) :
+    ∀ e ∈ (mid.foldl midStep st).entries, ((∀ e0 ∈ st.entries, e0.key ≠ e.key) ∨ skip e.key = true) →
+      e ∈ (evictLoop (target limit) skip (sortDesc st.now st.entries) (mid.foldl midStep st) []).1.entries := by
+  intro e he hnew
+  have hsc := evict_window_only_scanned st mid limit skip h e.key
+  rw [evictLoop_nil_eq] at hsc ⊢
+  rw [loop_entries, List.mem_filter]
+  refine ⟨he, ?_⟩
+  cases hc : (loop (target limit) skip (sortDesc st.now st.entries) (mid.foldl midStep st)).2.contains e.key with
+  | false => rfl
+  | true =>
+    have := hsc (List.contains_iff_mem.1 hc)
+    rcases hnew with hnew | hnew
+    · rcases mem_sortDesc_keys.1 this.1 with ⟨e0, he0, hk0⟩
+      exact absurd hk0 (hnew e0 he0)
+    · rw [this.2] at hnew; cases hnew
+
+/-- (W5) what is stored afterwards is what was stored when the loop started
+    minus the removed keys, and the counters stay exact (so the final
+    `BytesCached.Set(size)` changes nothing). -/
+theorem evict_window_preserves (st : St) (mid : List MidOp) (limit : Int) (skip : Nat → Bool)
+    (h : Inv st) :
+    let r := evictLoop (target limit) skip (sortDesc st.now st.entries) (mid.foldl midStep st) []
+    Inv r.1 ∧ { r.1 with mBytes := r.1.byteSize } = r.1 ∧
+    r.1.entries = (mid.foldl midStep st).entries.filter (fun e => !r.2.contains e.key) := by
+  intro r
+  have hr : r = loop (target limit) skip (sortDesc st.now st.entries) (mid.foldl midStep st) :=
+    evictLoop_nil_eq _ _ _ _
+  have h1 : Inv (mid.foldl midStep st) :=
+    foldl_midStep_preserves Rv.Lemmas.StoreInv.midStep_preserves mid st h
+  have hi : Inv r.1 := by rw [hr]; exact loop_inv _ _ _ _ h1
+  refine ⟨hi, ?_, ?_⟩
+  · rw [← hi.mbytes]
+  · rw [hr]; exact loop_entries _ _ _ _
+
 end Rv.Lemmas.StoreEvict
